@@ -132,6 +132,9 @@ class PathFinder:
                     nmset = _names(t)
                     if isinstance(a.value, ast.Constant):
                         out.append((("isnone", txt, nmset), a.value.value is None))
+        if n.kind == "stmt" and isinstance(a, ast.Assert):
+            # on the normal edge the asserted condition holds
+            out += cond_facts(a.test, True)
         if n.kind == "except" and isinstance(a, ast.ExceptHandler) and a.name:
             nm = frozenset([a.name])
             out.append((("isnone", a.name, nm), False))
@@ -246,10 +249,15 @@ class PathFinder:
                             if got is not None:
                                 new_facts = list(new_facts) + [((kind_, t_.id, frozenset([t_.id])), got[0])]
             facts3 = self._merge(facts2, new_facts)
+            normal_infeasible = False
             if facts3 is None:
                 facts3 = facts2
+                # an assertion that contradicts what is known on this path only leaves exceptionally
+                normal_infeasible = n.kind == "stmt" and isinstance(a_, ast.Assert)
             for m, label in n.succ:
                 if edge_ok is not None and not edge_ok(n, m, label):
+                    continue
+                if normal_infeasible and label != "exc":
                     continue
                 if label == "exc":
                     # the statement did not complete: assignment facts do not hold
